@@ -1621,3 +1621,265 @@ Proof.
   intros t x Hin. apply In_fold_due_add in Hin. destruct Hin as [Hin|[-> [st Hin]]]; [apply E0, Hin|].
   apply (Hok eq_refl t st Hin).
 Qed.
+
+(* ---- the retry manager ---- *)
+Lemma NoDup_app_drop_mid {A} (a b c : list A) : NoDup (a ++ b ++ c) -> NoDup (a ++ c).
+Proof.
+  intros H. apply NoDup_app_iff in H. destruct H as [Ha [Hbc Hd]]. apply NoDup_app_iff in Hbc. destruct Hbc as [Hb [Hc Hd2]].
+  apply NoDup_app_iff. split; [exact Ha|]. split; [exact Hc|]. intros x Hx Hy. apply (Hd x Hx). apply in_or_app. right. exact Hy.
+Qed.
+
+Lemma NoDup_union_mid (a b c : list N) : NoDup (a ++ b ++ c) -> NoDup (set_union a b ++ c).
+Proof.
+  intros H. apply NoDup_app_iff in H. destruct H as [Ha [Hbc Hd]]. apply NoDup_app_iff in Hbc. destruct Hbc as [Hb [Hc Hd2]].
+  apply NoDup_app_iff. split; [apply NoDup_set_union; exact Ha|]. split; [exact Hc|].
+  intros x Hx Hy. apply In_set_union in Hx. destruct Hx as [Hx|Hx].
+  - apply (Hd x Hx). apply in_or_app. right. exact Hy.
+  - apply (Hd2 x Hx Hy).
+Qed.
+
+Lemma Inv_with_retriers c m : Inv c -> Inv (with_retriers c m).
+Proof. intros H. exact H. Qed.
+
+Lemma tracked_set_chan s q k : tracked (set_chan s q) k = retrier_pending s k ++ chan_data q k.
+Proof. reflexivity. Qed.
+
+Lemma chan_data_cons t data rest k :
+  chan_data ((t, data) :: rest) k = (if N.eqb t k then rdata_set data else []) ++ chan_data rest k.
+Proof. reflexivity. Qed.
+
+Lemma retrier_pending_put s t r k : retrier_pending (put_retrier s t r) k = if N.eqb k t then r_pending r else retrier_pending s k.
+Proof. unfold retrier_pending, put_retrier, set_mgr. cbn [f_mgr]. rewrite aget_aset. destruct (N.eqb k t); reflexivity. Qed.
+
+Lemma tracked_put s t r k :
+  tracked (put_retrier s t r) k = (if N.eqb k t then r_pending r else retrier_pending s k) ++ chan_data (f_chan s) k.
+Proof. rewrite tracked_eq, retrier_pending_put. reflexivity. Qed.
+
+(* replacing the retrier of tower t (the client untouched) *)
+Lemma FInv_put s t r :
+  FInv s ->
+  (poisoned s = false -> knownc (f_c s) t -> forall l, In l (r_pending r) -> Prow (c_db (f_c s)) t l) ->
+  (poisoned s = false -> r_status r = RRunning -> NoDup (r_pending r ++ chan_data (f_chan s) t) /\ aget (c_retriers (f_c s)) t = Some RRunning) ->
+  (poisoned s = false -> NoDup (r_pending r)) ->
+  TaskInv (put_retrier s t r) ->
+  FInv (put_retrier s t r).
+Proof.
+  intros [HI [HD [HV HT]]] H1 H2 H3 HT'. split; [exact HI|]. split; [exact HD|]. split; [|exact HT'].
+  intros Hp. change (poisoned (put_retrier s t r)) with (poisoned s) in Hp. destruct (HV Hp) as [V1 [V2 [V3 [V4 V5]]]].
+  split; [exact V1|]. split; [|split; [|split]].
+  - intros k Hk l Hl. change (f_c (put_retrier s t r)) with (f_c s) in *. rewrite tracked_put in Hl.
+    destruct (N.eqb k t) eqn:E.
+    + apply N.eqb_eq in E. subst k. apply in_app_or in Hl. destruct Hl as [Hl|Hl]; [apply H1; assumption|].
+      apply V2; [exact Hk|]. rewrite tracked_eq. apply in_or_app. right. exact Hl.
+    + apply V2; [exact Hk|]. exact Hl.
+  - intros k Hk. rewrite rstat_put in Hk. rewrite tracked_put. destruct (N.eqb k t) eqn:E.
+    + apply N.eqb_eq in E. subst k. assert (Hs : r_status r = RRunning) by congruence. apply (proj1 (H2 Hp Hs)).
+    + apply V3, Hk.
+  - intros k r0 Hk. unfold put_retrier, set_mgr in Hk. cbn [f_mgr] in Hk. rewrite aget_aset in Hk. destruct (N.eqb k t).
+    + inversion Hk. subst. exact (H3 Hp).
+    + eapply V4, Hk.
+  - intros k Hk. rewrite rstat_put in Hk. change (f_c (put_retrier s t r)) with (f_c s). destruct (N.eqb k t) eqn:E.
+    + apply N.eqb_eq in E. subst k. assert (Hs : r_status r = RRunning) by congruence. apply (proj2 (H2 Hp Hs)).
+    + apply V5, Hk.
+Qed.
+
+(* taking the head of the channel away *)
+Lemma FInv_pop s t data rest : FInv s -> f_chan s = (t, data) :: rest -> FInv (set_chan s rest).
+Proof.
+  intros [HI [HD [HV HT]]] Ec. split; [exact HI|]. split; [exact HD|]. split; [|exact HT].
+  intros Hp. destruct (HV Hp) as [V1 [V2 [V3 [V4 V5]]]]. split; [exact V1|]. split; [|split; [|split; [exact V4|exact V5]]].
+  - intros k Hk l Hl. apply V2; [exact Hk|]. rewrite tracked_set_chan in Hl. rewrite tracked_eq, Ec, chan_data_cons.
+    apply in_app_or in Hl. destruct Hl as [Hl|Hl]; apply in_or_app; [left; exact Hl|right; apply in_or_app; right; exact Hl].
+  - intros k Hk. rewrite tracked_set_chan. specialize (V3 k Hk). rewrite tracked_eq, Ec, chan_data_cons in V3.
+    apply NoDup_app_drop_mid in V3. exact V3.
+Qed.
+
+Lemma FInv_kill_mgr s : FInv s -> FInv (kill_mgr s).
+Proof. apply FInv_core; reflexivity. Qed.
+
+Lemma FInv_wake s t r :
+  FInv s -> poisoned s = false -> aget (f_mgr s) t = Some r -> r_status r = RIdle -> FInv (wake s t r).
+Proof.
+  intros HF Hp Hr Hi. unfold wake.
+  set (c1 := with_retriers (f_c s) (aremove (c_retriers (f_c s)) t)).
+  assert (HF1 : FInv (set_c s c1)).
+  { pose proof HF as [HI [HD [HV HT]]]. destruct (HV Hp) as [V1 [V2 [V3 [V4 V5]]]].
+    split; [exact HI|]. split; [exact HD|]. split; [|exact HT]. intros _.
+    split; [exact V1|]. split; [exact V2|]. split; [exact V3|]. split; [exact V4|].
+    intros k Hk. cbn [f_c set_c c_retriers with_retriers c1]. unfold c1. cbn [c_retriers with_retriers]. rewrite aget_aremove.
+    destruct (N.eqb k t) eqn:E; [|apply V5, Hk]. apply N.eqb_eq in E. subst k. unfold rstat in Hk. cbn [f_mgr set_c] in Hk. rewrite Hr in Hk. cbn in Hk. congruence. }
+  pose proof HF as [HI [_ [HV _]]]. destruct (HV Hp) as [_ [V2 [_ [V4 _]]]].
+  apply FInv_put; [exact HF1| | | |].
+  - intros _ Hk l Hl. cbn [r_pending] in Hl. apply In_set_union in Hl. destruct Hl as [Hl|Hl].
+    + apply V2; [exact Hk|]. rewrite tracked_eq. apply in_or_app. left. unfold retrier_pending. rewrite Hr. exact Hl.
+    + apply In_pending_locators in Hl. destruct Hl as [row [A [B C]]]. exists row. auto.
+  - intros _ H. discriminate H.
+  - intros _. cbn [r_pending]. apply NoDup_set_union. eapply V4, Hr.
+  - apply TaskInv_put_not_task; [apply HF1|]. cbn. eapply not_task_if_not_running; [apply HF|exact Hr|congruence].
+Qed.
+
+(* the receive branch: `s0` is the state with the message already taken from the channel; the facts about the
+   data come from the state that still had it *)
+Lemma FInv_add_pending s0 t locs :
+  FInv s0 -> poisoned s0 = false ->
+  (knownc (f_c s0) t -> forall l, In l locs -> Prow (c_db (f_c s0)) t l) ->
+  NoDup locs ->
+  (rstat s0 t = Some RRunning -> NoDup (retrier_pending s0 t ++ locs ++ chan_data (f_chan s0) t)) ->
+  FInv (add_pending_appointments s0 t locs).
+Proof.
+  intros HF Hp H1 H2 H3. unfold add_pending_appointments.
+  pose proof HF as [HI [HD [HV HT]]]. destruct (HV Hp) as [V1 [V2 [V3 [V4 V5]]]].
+  destruct (aget (f_mgr s0) t) as [r|] eqn:Er.
+  - apply FInv_put; [exact HF| | | |].
+    + intros _ Hk l Hl. cbn [r_pending] in Hl. apply In_set_union in Hl. destruct Hl as [Hl|Hl]; [|apply H1; assumption].
+      apply V2; [exact Hk|]. rewrite tracked_eq. apply in_or_app. left. unfold retrier_pending. rewrite Er. exact Hl.
+    + intros _ Hs. cbn [r_status r_pending] in *.
+      assert (Hr : rstat s0 t = Some RRunning) by (unfold rstat; rewrite Er; cbn; congruence).
+      split; [|apply V5, Hr]. apply NoDup_union_mid. specialize (H3 Hr). unfold retrier_pending in H3. rewrite Er in H3. exact H3.
+    + intros _. cbn [r_pending]. apply NoDup_set_union. eapply V4, Er.
+    + eapply TaskInv_put_same_status; [exact HT|exact Er|reflexivity].
+  - apply FInv_put; [exact HF| | | |].
+    + intros _ Hk l Hl. apply H1; assumption.
+    + intros _ Hs. discriminate Hs.
+    + intros _. exact H2.
+    + apply TaskInv_put_not_task; [exact HT|]. apply not_task_if_absent; assumption.
+Qed.
+
+Lemma FInv_mgr_receive s t data rest :
+  FInv s -> f_chan s = (t, data) :: rest -> FInv (fst (mgr_receive (set_chan s rest) t data)).
+Proof.
+  intros HF Ec. pose proof (FInv_pop s t data rest HF Ec) as HF0. set (s0 := set_chan s rest) in *.
+  unfold mgr_receive. destruct (poisoned s0) eqn:Hp; [apply FInv_kill_mgr, HF0|].
+  destruct (negb (amem (c_towers (f_c s0)) t)) eqn:Ek; [exact HF0|].
+  pose proof HF as [_ [_ [HV _]]]. destruct (HV Hp) as [_ [V2 [V3 _]]].
+  assert (Hdata : knownc (f_c s0) t -> forall l, In l (rdata_set data) -> Prow (c_db (f_c s0)) t l).
+  { intros Hk l Hl. apply (V2 t Hk). rewrite tracked_eq, Ec, chan_data_cons, N.eqb_refl. apply in_or_app. right. apply in_or_app. left. exact Hl. }
+  assert (Hnd : rstat s0 t = Some RRunning -> NoDup (retrier_pending s0 t ++ rdata_set data ++ chan_data (f_chan s0) t)).
+  { intros Hr. specialize (V3 t Hr). rewrite tracked_eq, Ec, chan_data_cons, N.eqb_refl in V3. exact V3. }
+  destruct (aget (f_mgr s0) t) as [r|] eqn:Er.
+  - destruct (is_idle (r_status r)) eqn:Ei.
+    + destruct (rdata_is_none data); cbn [fst]; [|exact HF0].
+      apply FInv_wake; [exact HF0|exact Hp|exact Er|]. destruct (r_status r); try discriminate. reflexivity.
+    + cbn [fst]. apply FInv_add_pending; [exact HF0|exact Hp|exact Hdata|apply NoDup_rdata_set|exact Hnd].
+  - cbn [fst]. apply FInv_add_pending; [exact HF0|exact Hp|exact Hdata|apply NoDup_rdata_set|exact Hnd].
+Qed.
+
+(* the Empty branch *)
+Lemma retrier_pending_retain s k :
+  retrier_pending (retain_state s) k = if retrier_kept s k then retrier_pending s k else [].
+Proof. unfold retrier_pending, retain_state, set_mgr. cbn [f_mgr]. rewrite aget_aretain. destruct (retrier_kept s k); reflexivity. Qed.
+
+Lemma rstat_retain s k : rstat (retain_state s) k = if retrier_kept s k then rstat s k else None.
+Proof. unfold rstat, retain_state, set_mgr. cbn [f_mgr]. rewrite aget_aretain. destruct (retrier_kept s k); reflexivity. Qed.
+
+Lemma FInv_retain s : FInv s -> FInv (retain_state s).
+Proof.
+  intros [HI [HD [HV HT]]]. split; [exact HI|]. split; [exact HD|]. split; [|apply TaskInv_retain, HT].
+  intros Hp. change (poisoned (retain_state s)) with (poisoned s) in Hp. destruct (HV Hp) as [V1 [V2 [V3 [V4 V5]]]].
+  split; [exact V1|]. split; [|split; [|split]].
+  - intros k Hk l Hl. apply V2; [exact Hk|]. rewrite tracked_eq in *. change (f_chan (retain_state s)) with (f_chan s) in Hl.
+    rewrite retrier_pending_retain in Hl. destruct (retrier_kept s k); [exact Hl|]. apply in_or_app. right. exact Hl.
+  - intros k Hk. rewrite rstat_retain in Hk. rewrite tracked_eq. change (f_chan (retain_state s)) with (f_chan s).
+    rewrite retrier_pending_retain. destruct (retrier_kept s k); [apply V3, Hk|discriminate].
+  - intros k r Hk. unfold retain_state, set_mgr in Hk. cbn [f_mgr] in Hk. rewrite aget_aretain in Hk.
+    destruct (retrier_kept s k); [eapply V4, Hk|discriminate].
+  - intros k Hk. rewrite rstat_retain in Hk. destruct (retrier_kept s k) eqn:Ek; [|discriminate].
+    unfold retain_state. cbn [f_c set_mgr set_c c_retriers with_retriers]. rewrite aget_aretain.
+    unfold retrier_failed. unfold rstat in Hk. destruct (aget (f_mgr s) k) as [r|] eqn:Er; [|discriminate]. cbn in Hk. inversion Hk as [Hs].
+    rewrite Hs. cbn. apply V5. unfold rstat. rewrite Er. cbn. congruence.
+Qed.
+
+Lemma FInv_set_tasks x ts : FInv x -> TaskInv (set_tasks x ts) -> FInv (set_tasks x ts).
+Proof. intros [HI [HD [HV _]]] HT. split; [exact HI|]. split; [exact HD|]. split; [exact HV|exact HT]. Qed.
+
+Lemma FInv_retrier_start s t r s' o :
+  FInv s -> f_chan s = [] -> aget (f_mgr s) t = Some r -> should_start r = true -> poisoned s = false ->
+  retrier_start s t r = (s', o) -> FInv s' /\ f_chan s' = [] /\ (o = None -> poisoned s' = false).
+Proof.
+  intros HF Ec Er Hss Hp E.
+  assert (Hstop : r_status r = RStopped).
+  { unfold should_start in Hss. apply andb_true_iff in Hss. destruct Hss as [Hss _]. destruct (r_status r); try discriminate. reflexivity. }
+  pose proof HF as [HI [HD [HV HT]]]. destruct (HV Hp) as [V1 [V2 [V3 [V4 V5]]]].
+  revert E. unfold retrier_start. destruct (aget (c_towers (f_c s)) t) as [su|] eqn:Et.
+  - intros E. inversion E. subst s' o. clear E. split; [|split; [exact Ec|]].
+    2:{ intros _. unfold poisoned in *. cbn [f_c set_tasks put_retrier set_mgr set_c c_poisoned with_retriers].
+        destruct (is_subscription_error (su_status su)); [exact Hp|].
+        destruct (prim_set_status (f_c s) t TemporaryUnreachable HI) as [_ [_ [_ [Hpo _]]]]. congruence. }
+    set (c1 := if is_subscription_error (su_status su) then f_c s else wt_set_tower_status (f_c s) t TemporaryUnreachable).
+    assert (HF1 : FInv (set_c s c1) /\ c_retriers c1 = c_retriers (f_c s) /\ c_db c1 = c_db (f_c s) /\ (forall k, knownc c1 k <-> knownc (f_c s) k)).
+    { unfold c1. destruct (is_subscription_error (su_status su)).
+      - split; [apply (FInv_core s); auto|]. repeat split; auto.
+      - split; [apply FInv_set_status; [exact HF|exact Hp|discriminate]|].
+        destruct (prim_set_status (f_c s) t TemporaryUnreachable HI) as [_ [Ed [Hret _]]]. split; [exact Hret|]. split; [exact Ed|].
+        intros k. apply knownc_set_status. }
+    destruct HF1 as [HF1 [Hret1 [Ed1 Hkn1]]].
+    set (c2 := with_retriers c1 (aset (c_retriers c1) t RRunning)).
+    assert (HF2 : FInv (set_c s c2)).
+    { destruct HF1 as [HI1 [HD1 [HV1 HT1]]]. split; [exact HI1|]. split; [exact HD1|]. split; [|exact HT1].
+      intros Hp2. destruct (HV1 Hp2) as [W1 [W2 [W3 [W4 W5]]]]. split; [exact W1|]. split; [exact W2|]. split; [exact W3|]. split; [exact W4|].
+      intros k Hk. cbn [f_c set_c c2 c_retriers with_retriers]. unfold c2. cbn [c_retriers with_retriers]. rewrite aget_aset.
+      destruct (N.eqb k t); [reflexivity|]. apply W5, Hk. }
+    apply FInv_set_tasks.
+    + apply FInv_put; [exact HF2| | | |].
+      * intros _ Hk l Hl. cbn [r_pending] in Hl. change (c_db (f_c (set_c s c2))) with (c_db c1). rewrite Ed1.
+        apply V2; [apply Hkn1; exact Hk|]. rewrite tracked_eq. apply in_or_app. left. unfold retrier_pending. rewrite Er. exact Hl.
+      * intros _ _. cbn [r_pending]. change (f_chan (set_c s c2)) with (f_chan s). rewrite Ec. cbn. rewrite app_nil_r.
+        split; [eapply V4, Er|]. cbn [f_c set_c]. unfold c2. cbn [c_retriers with_retriers]. apply aget_aset_same.
+      * intros _. cbn [r_pending]. eapply V4, Er.
+      * apply TaskInv_put_not_task; [apply HF2|]. cbn. eapply not_task_if_not_running; [exact HT|exact Er|congruence].
+    + assert (Es : retrier_start s t r = (set_tasks (put_retrier (set_c s c2) t {| r_status := RRunning; r_pending := r_pending r |}) (f_tasks s ++ [t]), None)).
+      { unfold retrier_start. rewrite Et. reflexivity. }
+      exact (TaskInv_start s t r _ HT Er Hstop Es).
+  - intros E. inversion E. subst s' o. clear E. split; [|split; [exact Ec|discriminate]].
+    apply FInv_kill_mgr. apply FInv_client; [exact HF|apply Inv_poison, HI|exact HD|]. cbn. discriminate.
+Qed.
+
+Lemma FInv_sweep elapsed : forall keys s started woke,
+  FInv s -> f_chan s = [] -> poisoned s = false -> FInv (fst (fst (fst (sweep s keys elapsed started woke)))).
+Proof.
+  induction keys as [|t keys IH]; intros s started woke HF Ec Hp; cbn [sweep]; [exact HF|].
+  destruct (aget (f_mgr s) t) as [r|] eqn:Er; [|apply IH; assumption].
+  destruct (should_start r) eqn:Ess.
+  - destruct (retrier_start s t r) as [s1 o] eqn:Es.
+    destruct (FInv_retrier_start s t r s1 o HF Ec Er Ess Hp Es) as [HF1 [Ec1 Hp1]].
+    destruct o; cbn [fst]; [exact HF1|]. apply IH; auto.
+  - destruct (is_idle (r_status r) && memN t elapsed) eqn:Ei; [|apply IH; assumption].
+    apply IH; [|exact Ec|exact Hp]. apply FInv_wake; [exact HF|exact Hp|exact Er|].
+    apply andb_true_iff in Ei. destruct Ei as [Ei _]. destruct (r_status r); try discriminate. reflexivity.
+Qed.
+
+(* nothing to start and nothing to wake: the loop leaves the state alone *)
+Lemma sweep_noop elapsed : forall keys s started woke,
+  (forall k r, In k keys -> aget (f_mgr s) k = Some r -> should_start r || (is_idle (r_status r) && memN k elapsed) = false) ->
+  sweep s keys elapsed started woke = (s, started, woke, None).
+Proof.
+  induction keys as [|t keys IH]; intros s started woke H; cbn [sweep]; [reflexivity|].
+  destruct (aget (f_mgr s) t) as [r|] eqn:Er.
+  - specialize (H t r (or_introl eq_refl) Er) as Hb. apply orb_false_iff in Hb. destruct Hb as [-> ->].
+    apply IH. intros k r0 Hk. apply H. right. exact Hk.
+  - apply IH. intros k r0 Hk. apply H. right. exact Hk.
+Qed.
+
+Lemma FInv_mgr_sweep s elapsed : FInv s -> f_chan s = [] -> FInv (fst (mgr_sweep s elapsed)).
+Proof.
+  intros HF Ec. unfold mgr_sweep.
+  match goal with |- context [if ?b then _ else _] => destruct b end; [apply FInv_kill_mgr, HF|]. cbv zeta.
+  pose proof (FInv_retain s HF) as HF1.
+  destruct (poisoned (retain_state s)) eqn:Hp; cbn [andb].
+  - (* poisoned: the loop runs only when there is nothing to do *)
+    match goal with |- context [if ?b then _ else _] => destruct b eqn:Etodo end; [apply FInv_kill_mgr, HF1|].
+    rewrite sweep_noop; [exact HF1|]. intros k r Hk Hr.
+    destruct (should_start r || is_idle (r_status r) && memN k elapsed) eqn:Eb; [|reflexivity].
+    assert (existsb (fun kv : N * retrier => should_start (snd kv) || is_idle (r_status (snd kv)) && memN (fst kv) elapsed) (f_mgr (retain_state s)) = true); [|congruence].
+    apply existsb_exists. exists (k, r). split; [apply aget_In, Hr|exact Eb].
+  - pose proof (FInv_sweep elapsed (map fst (f_mgr (retain_state s))) (retain_state s) [] [] HF1 Ec Hp) as H.
+    destruct (sweep (retain_state s) (map fst (f_mgr (retain_state s))) elapsed [] []) as [[[s2 st] wk] [site|]]; exact H.
+Qed.
+
+Lemma FInv_manager_tick s elapsed : FInv s -> FInv (fst (f_manager_tick s elapsed)).
+Proof.
+  intros HF. unfold f_manager_tick. destruct (f_mgr_dead s); [exact HF|].
+  destruct (f_chan s) as [|[t data] rest] eqn:Ec.
+  - apply FInv_mgr_sweep; assumption.
+  - apply (FInv_mgr_receive s t data rest HF Ec).
+Qed.
